@@ -177,8 +177,8 @@ func c10Spec() map[string]cellSpec {
 		"MarkedObjectKeyableRule": {
 			"OnPadding":             {"nop"},
 			"OnKeyableObject":       {"ctx.UnstackRule(); cur.OnKeyableObject($ctx,$objType,$key); ctx.MarkObject($objType)"},
-			"OnArray":               {"ctx.UnstackRule(); cur.OnArray($ctx,$arrayType,$elementCount,$data); ctx.MarkObject($dataType)"},
-			"OnStringlikeArray":     {"ctx.UnstackRule(); cur.OnStringlikeArray($ctx,$arrayType,$data); ctx.MarkObject($dataType)"},
+			"OnArray":               {"def($v1=arrayTypeToDataType[$arrayType]); ctx.UnstackRule(); cur.OnArray($ctx,$arrayType,$elementCount,$data); ctx.MarkObject($v1)"},
+			"OnStringlikeArray":     {"def($v1=arrayTypeToDataType[$arrayType]); ctx.UnstackRule(); cur.OnStringlikeArray($ctx,$arrayType,$data); ctx.MarkObject($v1)"},
 			"OnArrayBegin":          {"ctx.BeginArrayKeyable(_s,$arrayType)"},
 			"OnChildContainerEnded": {"ctx.MarkEndedContainer($dataType); ctx.UnstackRule(); cur.OnChildContainerEnded($ctx,$dataType)"},
 		},
@@ -195,9 +195,9 @@ func c10Spec() map[string]cellSpec {
 			"OnNode":   {"parent.OnNode($ctx)", "ctx.BeginNode()"},
 			"OnEdge":   {"parent.OnEdge($ctx)", "ctx.BeginEdge()"},
 			"OnArray": {"ctx.AssertArrayType(_s,$arrayType,AllowMarkable); ctx.UnstackRule(); cur.OnArray($ctx,$arrayType,$elementCount,$data); ctx.MarkObject($dataType)",
-				"ctx.AssertArrayType(_s,$arrayType,AllowMarkable); ctx.UnstackRule(); cur.OnArray($ctx,$arrayType,$elementCount,$data); switch($arrayType){ArrayTypeResourceID,ArrayTypeString:ctx.MarkObject($dataType) | default:ctx.MarkObject($dataType)}"},
+				"ctx.AssertArrayType(_s,$arrayType,AllowMarkable); def($v1=arrayTypeToDataType[$arrayType]); ctx.UnstackRule(); cur.OnArray($ctx,$arrayType,$elementCount,$data); switch($arrayType){ArrayTypeResourceID,ArrayTypeString:ctx.MarkObject($v1) | default:ctx.MarkObject($v1)}"},
 			"OnStringlikeArray": {"ctx.AssertArrayType(_s,$arrayType,AllowMarkable); ctx.UnstackRule(); cur.OnStringlikeArray($ctx,$arrayType,$data); ctx.MarkObject($dataType)",
-				"ctx.AssertArrayType(_s,$arrayType,AllowMarkable); ctx.UnstackRule(); cur.OnStringlikeArray($ctx,$arrayType,$data); switch($arrayType){ArrayTypeString:ctx.MarkObject($dataType) | default:ctx.MarkObject($dataType)}"},
+				"ctx.AssertArrayType(_s,$arrayType,AllowMarkable); def($v1=arrayTypeToDataType[$arrayType]); ctx.UnstackRule(); cur.OnStringlikeArray($ctx,$arrayType,$data); switch($arrayType){ArrayTypeString:ctx.MarkObject($v1) | default:ctx.MarkObject($v1)}"},
 			"OnArrayBegin":          {"ctx.AssertArrayType(_s,$arrayType,AllowMarkable); parent.OnArrayBegin($ctx,$arrayType)"},
 			"OnChildContainerEnded": {"ctx.MarkEndedContainer($cType); ctx.UnstackRule(); cur.OnChildContainerEnded($ctx,$cType)"},
 		},
@@ -323,41 +323,9 @@ func ctxSummary(p *core.Program, a *analysis, name string) (string, *fn) {
 }
 
 func checkC10Counts(r *core.Run, p *core.Program, a *analysis) {
-	want := map[string][]string{
-		"BeginList": {"ctx.beginContainer(listRule,DataTypeList,noObjectCount)"},
-		"BeginMap":  {"ctx.beginContainer(mapKeyRule,DataTypeMap,noObjectCount)"},
-		"BeginEdge": {"ctx.beginContainer(edgeSourceRule,DataTypeEdge,3)"},
-		"BeginNode": {"ctx.beginContainer(nodeRule,DataTypeList,noObjectCount)", "ctx.beginContainer(nodeRule,DataTypeNode,noObjectCount)"},
-		"BeginRecordType": {"if(!ctx.areRecordTypesAllowed()){reject}; ctx.beginContainer(recordTypeRule,DataTypeRecordType,noObjectCount); set($_this.recordTypeName=string($id))"},
-		"BeginRecord":     {"?pure:string($id); if(!$ok){reject}; ctx.beginContainer(recordRule,DataTypeRecord,$expectedObjectCount)", "if(!$ok){reject}; ctx.beginContainer(recordRule,DataTypeRecord,$expectedObjectCount)"},
-		"beginContainer":  {"++($_this.containerDepth); if($_this.containerDepth>$_this.config.Rules.MaxContainerDepth){reject}; ctx.stackRule($rule,$dataType,$expectedObjectCount)"},
-		"endContainerLike": {"ctx.UnstackRule(); if($notifyParent){cur.OnChildContainerEnded($_this,$cType)}"},
-		"EndContainer": {"if($_this.containerDepth==0){reject}; if($_this.CurrentEntry.ExpectedObjectCount>=0&&$_this.CurrentEntry.CurrentObjectCount!=$_this.CurrentEntry.ExpectedObjectCount){reject}; if($_this.CurrentEntry.DataType==DataTypeRecordType){ctx.addRecordType($_this.recordTypeName,$_this.CurrentEntry.CurrentObjectCount)}; --($_this.containerDepth); ctx.endContainerLike($notifyParent)"},
-		"addRecordType":  {"if($exists){reject}; set($_this.recordTypes[$id]=$objectCount)"},
-		"NotifyNewObject": {"if($isRealObject){++($_this.CurrentEntry.CurrentObjectCount); if($_this.CurrentEntry.ExpectedObjectCount>=0&&$_this.CurrentEntry.CurrentObjectCount>$_this.CurrentEntry.ExpectedObjectCount){reject}}; ++($_this.objectCount); if($_this.objectCount>$_this.config.Rules.MaxObjectCount){reject}"},
-		"BeginMarkerKeyable":    {"set($_this.markerID=string($id)); ctx.stackRule(markedObjectKeyableRule,$dataType,noObjectCount); set($_this.CurrentEntry.MarkerID=$_this.markerID)"},
-		"BeginMarkerAnyType":    {"set($_this.markerID=string($id)); ctx.stackRule(markedObjectAnyTypeRule,$dataType,noObjectCount); set($_this.CurrentEntry.MarkerID=$_this.markerID)"},
-		"LocalReferenceKeyable": {"ctx.LocalReferenceObject($identifier,AllowKeyable)"},
-		"LocalReferenceAnyType": {"ctx.LocalReferenceObject($identifier,AllowAny)"},
-		"ChangeRule":            {"set($_this.CurrentEntry.Rule=$rule)"},
-		"MarkEndedContainer":    {"set($_this.markerID=$_this.CurrentEntry.MarkerID); ctx.MarkObject($dataType)"},
-		"UnstackRule":           {"set($_this.CurrentEntry=$_this.stack[?pure:len($_this.stack)-1]); set($_this.stack=$_this.stack[:?pure:len($_this.stack)-1]); return"},
-	}
-	for _, name := range sortedKeys(want) {
-		got, f := ctxSummary(p, a, name)
-		if f == nil {
-			r.Undecided("C10.counts", "rules.Context."+name)
-			continue
-		}
-		ok := false
-		for _, w := range want[name] {
-			if got == w {
-				ok = true
-			}
-		}
-		r.Check("C10.counts", "rules.Context."+name, f.Decl.Pos(), ok,
-			fmt.Sprintf("Context.%s does `%s`; the reference specification requires `%s`", name, got, strings.Join(want[name], "` or `")))
-	}
+	checkCtxPrimitives(r, p, a, "C10.counts", "BeginList", "BeginMap", "BeginEdge", "BeginNode", "BeginRecordType", "BeginRecord", "beginContainer",
+		"endContainerLike", "EndContainer", "addRecordType", "NotifyNewObject", "BeginMarkerKeyable", "BeginMarkerAnyType", "LocalReferenceKeyable",
+		"LocalReferenceAnyType", "ChangeRule", "Reset", "Init", "MarkEndedContainer", "UnstackRule", "AssertArrayType", "BeginArrayKeyable", "ValidateFullArrayKeyable", "ValidateFullArrayStringlikeKeyable")
 	// statement-order / state-update facts the summaries do not show
 	info := p.Pkg("rules").TypesInfo
 	// (1) counters are advanced BEFORE being compared (NotifyNewObject, beginContainer): checked by C14.limit-guard.
